@@ -45,3 +45,13 @@ Definition store_var_len_uint8 (n : N) (out : bits) : option bits :=
   else
     let nbits := w8 (log2_floor_nonzero n) in
     obind (wb 1 1 out) (fun o1 => obind (wb 3 nbits o1) (fun o2 => wb nbits (wsub64 n (wshl64 1 nbits)) o2)).
+
+(* ---- BrotliStoreUncompressedMetaBlock for every chunk (header, JumpToByteBoundary, the bytes), then
+        the empty last meta-block: the stream body written for stored (incompressible) input ---- *)
+Definition bytes_bits (l : list N) : bits := flat_map (fun b => N_to_bits 8 b) l.
+Fixpoint store_chunks (chunks : list (list N)) (out : bits) : option bits :=
+  match chunks with
+  | [] => write_empty_last_meta_block out
+  | c :: t => obind (store_uncompressed_meta_block_header (N.of_nat (length c)) out)
+                    (fun o1 => store_chunks t (jump_to_byte_boundary o1 ++ bytes_bits c))
+  end.
